@@ -124,17 +124,18 @@ LEVELS["C18"] = {
 }
 
 LEVELS["C20"] = {
-    "text": "Bounded symbolic model checking of the JSON views (reduced scope): json.ToJson runs from SSA up to the encoder call; the envelope / record / entry / error view tree handed to "
-            "encoding/json is checked against the parsed data for every generated document within the bound. The JSON text itself is outside this technique's reach (reflection) and "
-            "is only sampled through the natively replayed witnesses.",
-    "note": BASE_NOTE + " encoding/json is an opaque codec in the engine.",
+    "text": "Bounded symbolic model checking of `klog json`: json.ToJson runs from SSA; encoding/json is an engine model driven by klog's own struct declarations and tags that emits the JSON "
+            "TEXT as byte terms; a reference JSON reader (RFC 8259) inside the harness must accept the text and find exactly the documented keys and the values the parsed records / errors "
+            "denote, for every generated document within the bound and for records with symbolic times and durations.",
+    "note": BASE_NOTE + " encoding/json itself is a hand-written model (trusted, validated natively per witness against the real library).",
 }
 
 LEVELS["C19"] = {
-    "text": "Bounded symbolic model checking of the bookmark database (reduced scope): the real bookmarks commands and the real app.Context run on the engine's virtual file system; one "
-            "step from every stored database within the bound must leave exactly the model map (name normalisation incl. @/@@ prefixes and the default name, overwrite, failing unset "
-            "leaves the file bytes unchanged, clear), list must be ordered and @name arguments must resolve through the real FileRetriever. Names are symbolic bytes.",
-    "note": BASE_NOTE + " encoding/json is an opaque faithful codec: the persistence claim holds modulo its documented round-trip contract; the JSON text is outside.",
+    "text": "Bounded symbolic model checking of the bookmark database: the real bookmarks commands and the real app.Context run on the engine's virtual file system, bookmarks.json is written "
+            "and read back as JSON text through the engine's encoding/json model; one step from every stored database within the bound must leave exactly the model map (name "
+            "normalisation computed independently of klog incl. @/@@ prefixes, embedded and trailing @, quote and backslash, the default name; overwrite; failing unset leaves the file "
+            "bytes unchanged; clear), the listed names must be exactly the model's in order, and @name arguments must resolve through the real FileRetriever. Names are symbolic bytes.",
+    "note": BASE_NOTE + " encoding/json itself is a hand-written model (trusted, validated natively per witness against the real library).",
 }
 
 NOT_APPLICABLE = {}
